@@ -418,7 +418,7 @@ impl<'a> Model<'a> {
             ),
             Shape::Enum(vs) => Val::Variant(vs[0].name.to_string(), Box::new(Val::Unit)),
             Shape::Unit => Val::Struct(d.name.to_string(), vec![]),
-            Shape::Newtype(_) => Val::Opaque,
+            Shape::Newtype(_) | Shape::Alias(_) => Val::Opaque,
         }
     }
 
@@ -457,6 +457,7 @@ impl<'a> Model<'a> {
 
     fn recv_from_meta(&mut self, d: &RecvDesc, it: &Item) -> M<Conv> {
         match &d.shape {
+            Shape::Alias(t) => self.conv(t, it),
             Shape::Newtype(t) => {
                 let mut r = self.conv(t, it)?;
                 if let Err(ls) = &mut r {
@@ -471,7 +472,7 @@ impl<'a> Model<'a> {
     /// `T::from_word()` called directly.
     pub fn from_word_entry(&mut self, d: &RecvDesc) -> M<Conv> {
         match d.shape {
-            Shape::Newtype(_) => self.default_hook(&Hook::Word),
+            Shape::Newtype(_) | Shape::Alias(_) => self.default_hook(&Hook::Word),
             _ => self.recv_word(d),
         }
     }
@@ -509,6 +510,9 @@ impl<'a> Model<'a> {
         match ty {
             Ty::Recv(name) => {
                 let d = self.recvs.get(name).expect("receiver in schema").clone();
+                if let Shape::Alias(t) = &d.shape {
+                    return self.conv_from_list(t, items);
+                }
                 self.recv_hook(&d, &dummy_item(), Hook::List(items))
             }
             Ty::Map { key, val, .. } => self.map_from_list(key, val, items),
